@@ -941,6 +941,19 @@ func init() {
 			ctx.Fail("sanitizer_contract", fail, c, obs)
 		}
 		if ctx.Replay != nil {
+			var cm struct {
+				R      bool `json:"caller_map_reuse"`
+				Kind   int  `json:"kind"`
+				Cached bool `json:"cached"`
+				PT     bool `json:"parent_tagged"`
+			}
+			if json.Unmarshal(ctx.Replay, &cm) == nil && cm.R {
+				ctx.Case(cm, "", "caller-map-reused-after-tagged", "")
+				if f := callerMapReuse(cm.Kind, cm.Cached, cm.PT, true); f != "" {
+					ctx.Fail("sanitizer_contract", f, cm, nil)
+				}
+				return
+			}
 			var c c06Case
 			if err := json.Unmarshal(ctx.Replay, &c); err != nil {
 				fatal(err)
@@ -971,6 +984,15 @@ func init() {
 		for i := 0; i < nscope; i++ {
 			c := c06GenScope(ctx.R, i)
 			one(&c)
+		}
+		// a clean map handed to Tagged under a sanitizer, then refilled by the caller with strings the
+		// sanitizer would rewrite: nothing of that may reach the reporter
+		for k := 0; k < 8; k++ {
+			cs := map[string]interface{}{"caller_map_reuse": true, "kind": k & 1, "cached": k&2 == 2, "parent_tagged": k&4 == 4}
+			ctx.Case(cs, "", "caller-map-reused-after-tagged", "")
+			if f := callerMapReuse(k&1, k&2 == 2, k&4 == 4, true); f != "" {
+				ctx.Fail("sanitizer_contract", f, cs, nil)
+			}
 		}
 		jobs = nil
 		ctx.Res.Extra["concurrent_sanitize_calls"] = conc
